@@ -177,9 +177,9 @@ def run(chk):
     chk.rule("R05.2", "ΔM = n·Δt and the first-order secular J2 rates (term algebra)")
     chk.rule("R05.3", "initial orbit never written; fresh cartesian result; timedelta relative to the epoch")
     ft = FormTable(chk)
-    r05_1(chk, ft)
-    r05_2(chk)
-    r05_3(chk)
+    chk.guard(r05_1, chk, ft)
+    chk.guard(r05_2, chk)
+    chk.guard(r05_3, chk)
     chk.assume("first-order secular J2 rates: dΩ = −3/2 n J2 (Re/p)² cos i, dω = 3/4 n J2 (Re/p)² (4 − 5 sin²i), "
                "dM − n = 3/4 n J2 (Re/p)² √(1−e²) (2 − 3 sin²i)")
     chk.assume("C01 (R01.1, R01.12) for the element order of keplerian_mean and Infos.n")
